@@ -241,6 +241,9 @@ type world struct {
 	u    *authsim.Universe
 	tld  *zm.Zone
 	root *zm.Zone
+	// pool: the scripted open recursive server named by `fallbackservers` on
+	// the pool stacks (pool.go); nil until the first of them is built
+	pool *authsim.Server
 }
 
 func (w *world) close() { w.u.Close() }
